@@ -305,6 +305,8 @@ def run(ctx, res):
             continue
         rows = 0
         for wc in S.cases:
+            for sp_, fn_, what_ in wc.unmodelled:
+                res.unmodelled(fn_, what_, sp_)
             for s2, r in wc.outs:
                 img = Img(res, S.I, s2, B, wc.n, B.cs)
                 done = rows_for(img, B, S.b, wc.n)
